@@ -87,7 +87,7 @@ Lemma ensure_cases m e w r :
   (exists c, blocks (ensure m) e w r w (AStatus c) /\ (c = 405 \/ c = 415)) \/
   (runs (ensure m) e w r w /\ r_method r = m /\ (modifies_data m = true -> ctype_ok r = true)).
 Proof.
-  unfold blocks, runs, ensure.
+  unfold blocks, runs, ensure, ensure_gen.
   destruct (eqb_bytes (r_method r) m) eqn:E; cbn.
   - apply eqb_bytes_eq in E. rewrite E.
     destruct (modifies_data m) eqn:Em; cbn.
